@@ -71,7 +71,18 @@ type Fault struct {
 	Err    error         // nil -> *mysql.MySQLError{Number:1105, Message:"injected fault"}
 	Sticky bool          // keep failing every later match too
 	Delay  time.Duration // > 0: the statement is not failed but held up for this long (a slow server)
+	// AtRow > 0: the statement is answered, and reading its result fails when row number AtRow (1-based) is
+	// asked for — an error that arrives from rows.Next, not from the query call (a lock wait timeout, a lost
+	// connection in the middle of a result)
+	AtRow int
 }
+
+type rowFault struct {
+	at  int
+	err error
+}
+
+func (r *rowFault) Error() string { return "fails at row" }
 
 type delayFault struct{ d time.Duration }
 
@@ -609,6 +620,9 @@ func (e *Engine) matchFault(s *session, kind, tbl string) error {
 			out = &delayFault{f.Delay}
 		} else if out == nil {
 			out = &mysql.MySQLError{Number: 1105, Message: "injected fault"}
+		}
+		if f.AtRow > 0 {
+			out = &rowFault{f.AtRow, out}
 		}
 	}
 	return out
